@@ -150,12 +150,21 @@ Hypothesis Hwf : wf_defs ds = true.
 Lemma Hbodies : forallb (fun d => negb (String.eqb (fst d) "defined") && forallb okd (snd d)) ds = true.
 Proof. unfold wf_defs in Hwf. apply andb_true_iff in Hwf. tauto. Qed.
 
+(* no function-like macro in an object-like table *)
+Lemma is_fl_mtable t : is_fl (mtable ds) t = false.
+Proof.
+  unfold is_fl. rewrite get_mtable. destruct (dlookup ds (tt t)); cbn; now rewrite andb_false_r.
+Qed.
+Lemma okt_okt2 t : okt t = true -> okt2 (mtable ds) t = true.
+Proof. intros H. unfold okt2. now rewrite H, is_fl_mtable. Qed.
+
 Lemma Hobj_m k m : get_macro (mtable ds) k = Some m ->
-  m_fun m = false /\ m_name m = k /\ forallb okt (m_repl m) = true.
+  m_name m = k /\ (m_fun m = false -> forallb (okt2 (mtable ds)) (m_repl m) = true).
 Proof.
   rewrite get_mtable. destruct (dlookup ds k) as [b|] eqn:E; [|discriminate]. cbn. intros H. injection H as <-.
-  repeat split. cbn [omacro m_repl]. apply okt_set_w_hd.
-  apply (forallb_impl okd okt); [apply okd_okt|]. eapply dlookup_ok; [apply Hbodies|exact E].
+  split; [reflexivity|]. intros _. cbn [omacro m_repl]. apply okt2_set_w_hd.
+  apply (forallb_impl okd (okt2 (mtable ds))); [intros x Hx; apply okt_okt2, okd_okt, Hx|].
+  eapply dlookup_ok; [apply Hbodies|exact E].
 Qed.
 
 Lemma HSobj_s k m : slookup (stable_of_defs ds) k = Some m -> exists b, m = SObj b /\ forallb okb b = true.
@@ -335,14 +344,14 @@ Fixpoint DSt (ts : list tok) : list tok :=
       else t :: DSt r
   end.
 
-Lemma wfd2_wfd ts : wfd2 ts = true -> wfd ts = true.
+Lemma wfd2_wfd ts : wfd2 ts = true -> wfd (mtable ds) ts = true.
 Proof.
-  apply (items_ind (fun l => wfd l = true)); [reflexivity| | |].
+  apply (items_ind (fun l => wfd (mtable ds) l = true)); [reflexivity| | |].
   - intros t x r Hd Hp Hx Hnp IH. cbn [wfd]. unfold is_def in Hd. rewrite Hd, Hnp, Hx. exact IH.
   - intros t x id c r Hd Hp Hi Hc IH. cbn [wfd]. unfold is_def in Hd.
     rewrite Hd, (is_punct_txt _ _ Hp), Hi, (is_punct_txt _ _ Hc). exact IH.
   - intros t r Hd Ho IH. cbn [wfd]. unfold is_def in Hd. rewrite Hd.
-    unfold okd in Ho. rewrite !andb_true_iff in Ho. destruct Ho as [[Hx _] _]. now rewrite Hx.
+    unfold okd in Ho. rewrite !andb_true_iff in Ho. destruct Ho as [[Hx _] _]. now rewrite Hx, is_fl_mtable.
 Qed.
 
 Lemma okd_numd d x : okd (numd d x) = true.
@@ -435,7 +444,8 @@ Proof.
   assert (Hin_b : forallb okb (map btok_of input) = true).
   { rewrite forallb_forall. intros x Hx. apply in_map_iff in Hx. destruct Hx as (t & <- & Ht).
     apply okd_okb. rewrite forallb_forall in Hin. now apply Hin. }
-  destruct (expand_objlike lead cat_fix str_white resub_fix va_fix va_whole max_level (mtable ds) Hobj_m input Hin_t) as (n1 & H1).
+  destruct (expand_objlike lead cat_fix str_white resub_fix va_fix va_whole max_level (mtable ds) Hobj_m input) as (n1 & H1).
+  { apply (forallb_impl okt (okt2 (mtable ds))); [apply okt_okt2|assumption]. }
   { unfold names, mtable. now rewrite !map_length. }
   destruct (expandS_objlike (stable_of_defs ds) HSobj_s (map btok_of input) Hin_b) as (n2 & H2).
   exists (n1 + n2). intros fuel Hf. eexists. split; [apply H1; lia|].
